@@ -142,6 +142,138 @@ def hpLocalhost (aliases : List Bytes) : List Bytes := builtinLocalhost ++ alias
     aliases `aliases` (as spelt there) -/
 def isLocalhostOf (aliases : List Bytes) (host : Bytes) : Bool := isLocalhostNames (hpLocalhost aliases) host
 
+/-! ### reading the hosts file: all or nothing
+
+`hostsfile.LocalhostAliases` opens the file `github.com/kevinburke/hostsfile/lib.Location` names and hands
+it to that library's `Decode`: a `bufio.Scanner` over the lines (a line of 64 KiB or more ends the scan
+with `ErrTooLong`), each line `strings.TrimSpace`d; empty lines and lines starting with `#` carry no
+record; every other line is `strings.Fields`: fewer than two fields is an error (`invalid hostsfile
+entry`: an address without a name, a lone name), the first field goes through `net.ResolveIPAddr` (an IP
+literal of `netip.ParseAddr`, an IPv6 one possibly with a `%zone`; anything else is looked up as a host
+name, which the model does not follow: such lines are outside its domain), the other fields up to the first
+one starting with `#` are the names. **On the first line it cannot read `Decode` returns an EMPTY
+`Hostsfile` and the error** — wherever the line is, whatever was read before it. `LocalhostAliases`
+returns that error and `NewHTTPProxy` fails with it: a proxy instance exists only for a hosts file that
+was read completely. The white space is the ASCII part of `unicode.IsSpace` (the generator writes no other
+space characters); a byte order mark is not white space, so it is part of the first field. -/
+
+/-- where the hosts file comes from -/
+inductive HostsSource where
+  /-- `os.Open` fails (no such file, no permission) -/
+  | missing
+  /-- the file opens and reading it fails (a directory, an I/O error) -/
+  | unreadable
+  | text (t : Bytes)
+  deriving Repr, DecidableEq
+
+/-- why `hostsfile.LocalhostAliases` fails -/
+inductive HostsError where
+  | cannotOpen | cannotRead
+  /-- `bufio.Scanner: token too long` -/
+  | tooLong
+  /-- `invalid hostsfile entry`: fewer than two fields -/
+  | entry
+  /-- the first field is not an address -/
+  | address
+  deriving Repr, DecidableEq
+
+def HostsError.name : HostsError → String
+  | .cannotOpen => "open" | .cannotRead => "read" | .tooLong => "too-long" | .entry => "entry" | .address => "address"
+
+/-- `bufio.MaxScanTokenSize`: a line (without its `\n`, with its `\r`) of this many bytes ends the scan -/
+def hostsMaxToken : Nat := 65536
+
+/-- `unicode.IsSpace`, ASCII part -/
+def isHostsSpace (c : UInt8) : Bool := c == 9 || c == 10 || c == 11 || c == 12 || c == 13 || c == 32
+
+def hostsFieldsGo (cur : Bytes) (acc : List Bytes) : Bytes → List Bytes
+  | [] => (if cur.isEmpty then acc else cur.reverse :: acc).reverse
+  | c :: cs =>
+    if isHostsSpace c then hostsFieldsGo [] (if cur.isEmpty then acc else cur.reverse :: acc) cs
+    else hostsFieldsGo (c :: cur) acc cs
+
+/-- `strings.Fields` -/
+def hostsFields (s : Bytes) : List Bytes := hostsFieldsGo [] [] s
+
+/-- the lines of the text (split at `\n`; the piece after the last `\n` is a line as well — when it is
+    empty the scanner does not deliver it, and an empty line carries nothing) -/
+def hostsLines : Bytes → List Bytes
+  | [] => [[]]
+  | c :: cs =>
+    if c == 10 then [] :: hostsLines cs
+    else match hostsLines cs with
+      | l :: ls => (c :: l) :: ls
+      | [] => [[c]]
+
+/-- the first field as an address: an IP literal (`netip.ParseAddr`), an IPv6 one possibly followed by
+    `%` and a non-empty zone; the address without the zone (`IsLoopback` does not look at the zone) -/
+def hostsAddr (a : Bytes) : Option Bytes :=
+  match a.find? (fun c => c == 46 || c == 58 || c == 37) with
+  | some 58 =>
+    let ip := a.takeWhile (· != 37)
+    if a.contains 37 && ((a.dropWhile (· != 37)).drop 1).isEmpty then none
+    else if (parseIP ip).isSome then some ip else none
+  | _ => if (parseIP a).isSome then some a else none
+
+/-- one line of the file: an error, nothing (blank, comment) or a record -/
+def readHostsLine (maxTok : Nat) (raw : Bytes) : Except HostsError (Option HostsRecord) :=
+  if raw.length ≥ maxTok then .error .tooLong else
+  match trimSpace raw with
+  | [] => .ok none
+  | c :: rest =>
+    if c == 35 then .ok none else
+    match hostsFields (c :: rest) with
+    | a :: n :: ns =>
+      match hostsAddr a with
+      | some ip => .ok (some { ip := ip, names := (n :: ns).takeWhile fun x => x.head? != some 35 })
+      | none => .error .address
+    | _ => .error .entry
+
+/-- `Decode` over the lines: the first line that cannot be read ends it, and nothing is kept -/
+def decodeHostsLines (maxTok : Nat) : List Bytes → Except HostsError (List HostsRecord)
+  | [] => .ok []
+  | l :: ls =>
+    match readHostsLine maxTok l with
+    | .error e => .error e
+    | .ok r? =>
+      match decodeHostsLines maxTok ls with
+      | .error e => .error e
+      | .ok rs => .ok (match r? with | some r => r :: rs | none => rs)
+
+def decodeHostsWith (maxTok : Nat) (t : Bytes) : Except HostsError (List HostsRecord) :=
+  decodeHostsLines maxTok (hostsLines t)
+
+/-- `hostsfile.Decode` on the text of the file -/
+def decodeHosts (t : Bytes) : Except HostsError (List HostsRecord) := decodeHostsWith hostsMaxToken t
+
+/-- the records a reader that goes line by line and skips what it cannot read would see (what the
+    machine's resolver makes of the file): the yardstick for "every loopback alias of the file" -/
+def looseRecords (maxTok : Nat) (lines : List Bytes) : List HostsRecord :=
+  lines.filterMap fun l =>
+    match readHostsLine maxTok l with
+    | .ok (some r) => some r
+    | _ => none
+
+def hpLocalhostOfWith (maxTok : Nat) : HostsSource → Except HostsError (List Bytes)
+  | .missing => .error .cannotOpen
+  | .unreadable => .error .cannotRead
+  | .text t =>
+    match decodeHostsWith maxTok t with
+    | .error e => .error e
+    | .ok recs => .ok (hpLocalhost (localhostAliases recs))
+
+/-- the outcome of `NewHTTPProxy` as far as the hosts file goes: it fails, or the instance's `hp.localhost` -/
+def hpLocalhostOf (src : HostsSource) : Except HostsError (List Bytes) := hpLocalhostOfWith hostsMaxToken src
+
+/-- the counter-model: a constructor that tolerates the decode error and goes on with "the aliases that
+    could be read" — which is what `Decode` hands back with the error: nothing -/
+def hpLocalhostTolerating (maxTok : Nat) : HostsSource → List Bytes
+  | .text t =>
+    match decodeHostsWith maxTok t with
+    | .ok recs => hpLocalhost (localhostAliases recs)
+    | .error _ => hpLocalhost (localhostAliases [])
+  | _ => hpLocalhost []
+
 /-- a lookup that relies on the list being sorted (`slices.BinarySearch` on the byte order): the
     counter-model — it agrees with the linear scan only on lists that ARE sorted, and `hp.localhost`
     is not (built-in names first; a list sorted as spelt is no longer sorted once lower-cased) -/
